@@ -3,13 +3,13 @@
 HOOK_COMMITS = ["c4c2ecd", "2f67f21", "e5d0013", "7bf7f92", "553dd8c", "dbfa6a8"]
 
 ENGINES = [
-    {"name": "tlc", "path": "/verif/lib/vlib.py", "serves_properties": ["C01", "C02", "C03", "C04", "C05", "C06", "C08", "C09", "C11", "C12", "C14", "C17", "C18"],
+    {"name": "tlc", "path": "/verif/lib/vlib.py", "serves_properties": ["C01", "C02", "C03", "C04", "C05", "C06", "C08", "C09", "C10", "C11", "C12", "C14", "C17", "C18"],
      "kind_free_text": "TLC runner (exhaustive, simulation), TLA+ value parser, evidence writer"},
     {"name": "psrun", "path": "/verif/lib/psprops.py", "serves_properties": ["C01", "C02", "C03", "C04", "C06", "C11", "C14"],
      "kind_free_text": "abstract programs (catalogue + seeded generator) -> MroSem table by TLC -> real pipestances under forced schedules -> PsTrace monitors by TLC"},
     {"name": "procdrv", "path": "/verif/lib/procdrv.py", "serves_properties": ["C05"],
      "kind_free_text": "real mrp/mrjob (tag verif) + table-driven vstage; SIGKILL/SIGTERM/SIGINT at the k-th effect; restart"},
-    {"name": "vh", "path": "/verif/harness", "serves_properties": ["C01", "C02", "C03", "C04", "C05", "C06", "C08", "C09", "C11", "C12", "C14", "C17", "C18"],
+    {"name": "vh", "path": "/verif/harness", "serves_properties": ["C01", "C02", "C03", "C04", "C05", "C06", "C08", "C09", "C10", "C11", "C12", "C14", "C17", "C18"],
      "kind_free_text": "Go conformance harness built with -tags verif against /repo's working tree"},
 ]
 
@@ -62,6 +62,11 @@ CHECKS = [
      "text": "Fmt.tla transcribes lexer.go attachComments/compileComments and formatter.go printComments for one scope; TLC proves on all layouts of up to 7 (thorough 8) comment/blank/element lines, with and without construct-level separators, that no comment is lost, comments followed by an element are kept exactly once in order, and Format(Format(x)) = Format(x); each layout is rendered as stage parameters, struct fields, call / return bindings, array elements, map entries, retain lists, calls and declarations, formatted by the real FormatSrcBytes, and the layout of the real output must equal the model's. Whole programs (repository .mro files, rendered corpus, literal catalogue, both modifier syntaxes, comments everywhere, include diamonds with wildcard bindings): output parses, same abstract program, no comment lost, fixed point; ParseSourceBytes' combined source compiles alone to the same program and call graph.",
      "ref": "DESIGN.md 5 C09",
      "note": "one scope per layout (nesting is covered by the whole-program corpus only); numbers only through the literal catalogue; abstraction harness/absast is trusted"},
+    {"id": "C10", "engine": "tlc+vh",
+     "technique": "TLA+ specification of the single admissible emission order (Order.tla) checked total by TLC and used as oracle in the first run; R repetitions in each of P fresh processes compared byte for byte",
+     "text": "Order.tla defines the byte-wise order of keys and proves it total and transitive on the key universe, so Sorted(S) is a function of the set; TLC writes the expected order of every 3-subset (thorough: 4-subset) of 56 keys; programs with those keys in shuffled source order must show them in exactly that order in the formatted text, the include-expanded source and the call graph JSON. Together with programs with 16-key literals, three split arguments over typed maps, whole mapped sub-pipeline results merged from different forked stages, duplicate retain entries, several compile errors at once and the formatter corpus, every artefact (formatted text, combined source, error messages, call graph JSON, retain order) is produced 20 times in each of 3 processes (thorough 200 x 10) and must be byte-identical; fork directories of real pipestances mapped over typed maps are compared across schedules.",
+     "ref": "DESIGN.md 5 C10",
+     "note": "map iteration order cannot be forced: detection of an unordered emission that happens to be sorted relies on repetition; per-fork _invocation files are not compared"},
     {"id": "C04", "engine": "tlc+psrun+vh",
      "technique": "TLA+ model of the VDR keep-alive protocol (Vdr.tla) checked exhaustively with the cleanup goroutines racing the run loop; file facts from the TLA+ semantics (MroSem.FileFacts); real pipestances writing files under every VDR mode; TLC trace monitors on removal events",
      "text": "Vdr.tla (fileArgs, filePostNodes, fileParamMap; one action per storage-lock critical section, asynchronous cache/kill halves of the doComplete goroutine, inline calls of the run loop, final sweep) is model-checked for NothingNeededRemoved, FinalClean, ReportExact over 78 small programs x 3 modes. For the file-passing catalogue TLC computes from MroSem which job writes each file, which jobs are handed it and whether a top-level output or retain names it; the real runtime runs the programs with table-driven stage code that writes and opens those files, under rolling / post / strict, slow-instance and random schedules, jittered cleanup goroutines and pipestances below a symbolic link; PsTrace (TLC) judges every VdrRemove (hook before os.RemoveAll), every consumer start and the final tree.",
